@@ -199,7 +199,7 @@ class C08(PropOracle):
 ORACLES["C08"] = C08
 
 A1 = dict(name="A1", kind="appender", host="n101", rows=[("j1", 0, "finished", 1), ("j2", 1, "canceled", 1)])
-A2 = dict(name="A2", kind="appender", host="n102", rows=[("j3", 2, "finished", 2)])
+A2 = dict(name="A2", kind="appender", host="n102", rows=[("j3", -9, "finished", 2)])  # -9: the job was killed by a signal
 A3 = dict(name="A3", kind="appender", host="n103", rows=[("j4", 0, "finished", 1)])
 R1 = dict(name="R1", kind="collector", host="n101", rounds=2, own=[("k1", 1, "canceled", 0)])
 R2 = dict(name="R2", kind="collector", host="login1", rounds=2, own=[("k2", 1, "canceled", 0)])
